@@ -6,15 +6,18 @@ import (
 	"golang.org/x/tools/go/ssa"
 )
 
-// Path is one acyclic entry→exit path of a function (blocks in order).
+// maxVisits bounds how often one path may traverse a block: 2 lets a loop body run once.
+const maxVisits = 2
+
+// Path is one entry→exit path of a function (blocks in order).
 type Path struct {
 	Blocks []*ssa.BasicBlock
 	idx    map[*ssa.BasicBlock]int
 }
 
 // EnumPaths enumerates the paths of fn from its entry to every Return/Panic
-// exit over feasible edges, visiting each block at most once per path (a loop
-// body is traversed at most once). It stops after max paths and reports
+// exit over feasible edges, visiting each block at most twice per path (a loop
+// body is traversed zero times or once). It stops after max paths and reports
 // whether the enumeration is complete.
 func EnumPaths(fn *ssa.Function, max int) (paths []*Path, complete bool) {
 	if len(fn.Blocks) == 0 {
@@ -22,7 +25,7 @@ func EnumPaths(fn *ssa.Function, max int) (paths []*Path, complete bool) {
 	}
 	complete = true
 	var cur []*ssa.BasicBlock
-	on := map[*ssa.BasicBlock]bool{}
+	on := map[*ssa.BasicBlock]int{}
 	var walk func(b *ssa.BasicBlock)
 	walk = func(b *ssa.BasicBlock) {
 		if !complete {
@@ -32,8 +35,8 @@ func EnumPaths(fn *ssa.Function, max int) (paths []*Path, complete bool) {
 			return
 		}
 		cur = append(cur, b)
-		on[b] = true
-		defer func() { cur = cur[:len(cur)-1]; on[b] = false }()
+		on[b]++
+		defer func() { cur = cur[:len(cur)-1]; on[b]-- }()
 		if ExitOf(b) != ExitNone {
 			if len(paths) >= max {
 				complete = false
@@ -47,7 +50,7 @@ func EnumPaths(fn *ssa.Function, max int) (paths []*Path, complete bool) {
 			return
 		}
 		for _, s := range Succs(b) {
-			if !on[s] {
+			if on[s] < maxVisits {
 				walk(s)
 			}
 		}
@@ -59,32 +62,65 @@ func EnumPaths(fn *ssa.Function, max int) (paths []*Path, complete bool) {
 // Has reports whether the path traverses the block.
 func (p *Path) Has(b *ssa.BasicBlock) bool { _, ok := p.idx[b]; return ok }
 
-// Resolve follows phis along the path: a phi defined in a block of the path is
-// replaced by the edge value of the predecessor the path came from.
-func (p *Path) Resolve(v ssa.Value) ssa.Value {
-	for i := 0; i < 32; i++ {
+// lastIndex returns the last position <= upto at which the path traverses b (-1 if none).
+func (p *Path) lastIndex(b *ssa.BasicBlock, upto int) int {
+	if upto >= len(p.Blocks) {
+		upto = len(p.Blocks) - 1
+	}
+	for i := upto; i >= 0; i-- {
+		if p.Blocks[i] == b {
+			return i
+		}
+	}
+	return -1
+}
+
+// ResolveAt follows phis along the path for a value used in the block at
+// position pos: a phi is replaced by the edge value of the predecessor the
+// path came from at the latest traversal of the phi's block not after pos.
+// It returns the resolved value and the position at which that value is live.
+func (p *Path) ResolveAt(v ssa.Value, pos int) (ssa.Value, int) {
+	for i := 0; i < 64; i++ {
 		phi, ok := v.(*ssa.Phi)
 		if !ok {
-			return v
+			return v, pos
 		}
-		k, on := p.idx[phi.Block()]
-		if !on || k == 0 {
-			return v
+		k := p.lastIndex(phi.Block(), pos)
+		if k <= 0 {
+			return v, pos
 		}
 		pred := p.Blocks[k-1]
 		found := false
 		for j, pb := range phi.Block().Preds {
 			if pb == pred {
 				v = phi.Edges[j]
+				pos = k - 1
 				found = true
 				break
 			}
 		}
 		if !found {
-			return v
+			return v, pos
 		}
 	}
-	return v
+	return v, pos
+}
+
+// Resolve resolves a value used at the end of the path.
+func (p *Path) Resolve(v ssa.Value) ssa.Value {
+	r, _ := p.ResolveAt(v, len(p.Blocks)-1)
+	return r
+}
+
+// PosOf returns the position of the latest traversal (not after upto) of the
+// block defining v, or upto if v has no block (parameters, constants).
+func (p *Path) PosOf(v ssa.Value, upto int) int {
+	if in, ok := v.(ssa.Instruction); ok && in.Block() != nil {
+		if k := p.lastIndex(in.Block(), upto); k >= 0 {
+			return k
+		}
+	}
+	return upto
 }
 
 // Instrs returns the instructions of the path in execution order.
@@ -106,7 +142,8 @@ func (p *Path) Facts() (cmps []Fact, bools []BoolFact) {
 			continue
 		}
 		pol := p.Blocks[i+1] == b.Succs[0]
-		subj, sp := BoolSubject(p.Resolve(iff.Cond))
+		cond, _ := p.ResolveAt(iff.Cond, i)
+		subj, sp := BoolSubject(cond)
 		val := pol == sp
 		bools = append(bools, BoolFact{subj, val})
 		if bo, ok := subj.(*ssa.BinOp); ok {
@@ -116,7 +153,9 @@ func (p *Path) Facts() (cmps []Fact, bools []BoolFact) {
 				if !val {
 					op = negate(op)
 				}
-				cmps = append(cmps, Fact{Op: op, X: p.Resolve(bo.X), Y: p.Resolve(bo.Y)})
+				x, _ := p.ResolveAt(bo.X, i)
+				y, _ := p.ResolveAt(bo.Y, i)
+				cmps = append(cmps, Fact{Op: op, X: x, Y: y})
 			}
 		}
 	}
